@@ -236,5 +236,5 @@ def gen(ch, tier):
 
 def plan(tier):
     if tier == "quick":
-        return {"streams": {"main": 6000}, "shards": 16}
+        return {"streams": {"main": 9600}, "shards": 16}
     return {"streams": {"main": 80000}, "shards": 16}
